@@ -112,7 +112,7 @@ func buildLongCodec(typ reflect.Type, omit bool) (Codec, error) {
 	case reflect.Int32:
 		return Int32Codec{omitEmpty: omit}, nil
 	case reflect.Int16:
-		return Int32Codec{omitEmpty: omit}, nil
+		return Int16Codec{omitEmpty: omit}, nil
 	}
 
 	return nil, fmt.Errorf("type %s (kind %s) not supported for long codec", typ, typ.Kind())
